@@ -152,16 +152,21 @@ def gen_ro_sep(rng, cfg):
 
     for k in range(K):
         a = _coef(rng, zs)
+        cdeps = {s_x[k]} | set(s_z.values())
+        if 'w' in zs and rng.random() < 0.4:
+            # the row involves z only: the second random array may be declared after this expression was built
+            a = {'z': _coef(rng, {'z': zs['z']})['z'], 'w': [0.0] * zs['w']}
+            cdeps = {s_x[k], s_z['z']}
         b = gen.r2(rng, 5, 20)
         own = default_set is None or rng.random() < 0.7
         blocks = gen.gen_set(rng, zs, fams) if own else default_set
         expect['x'].append(b - ref.support(blocks, a))
-        s_c = add({'op': 'cons', 'id': 'c%d' % k, 'e': _lin_forms(rng, xs[k], a, b)},
-                  {s_x[k]} | set(s_z.values()), role='cons')
+        a_used = {zn: v for zn, v in a.items() if any(v)}
+        s_c = add({'op': 'cons', 'id': 'c%d' % k, 'e': _lin_forms(rng, xs[k], a_used, b)}, cdeps, role='cons')
         last = s_c
         if own:
             last = add({'op': 'forall', 'id': 'c%d' % k, 'set': ref.set_constraints(blocks, zs),
-                        'blocks': blocks}, [s_c], role='set')
+                        'blocks': blocks}, [s_c] + list(s_z.values()), role='set')
         add({'op': 'st', 'm': 'm', 'ids': ['c%d' % k]}, [last] if own else [last, s_obj], role='st')
         # a constraint relying on the default set is only meaningful once the objective (and its set) exists
 
@@ -813,7 +818,8 @@ def check_case(case, props):
     viols = []
     stats = {'runs': 1, 'schedules': 0, 'events': 0, 'solves_healthy': {}, 'solves_faulted': {},
              'faults_fired': {}, 'probes': {}, 'inconclusive': {}, 'sim_seconds': 0.0, 'l3_checks': 0,
-             'l1_checks': 0, 'l2_checks': 0, 'nontrivial_sigs': [], 'schedule_sigs': [], 'states': []}
+             'l1_checks': 0, 'l2_checks': 0, 'nontrivial_sigs': [], 'schedule_sigs': [], 'states': [],
+             'families': {fam + '/' + decl['cone']: 1}}
 
     def viol(oracle, detail, ops=None, exc=None, sched=None):
         tags = tags_of(ops) if ops is not None else []
